@@ -14,6 +14,7 @@ FTYPES = {'Boolean': FeatureType.BOOLEAN, 'Integer': FeatureType.INTEGER,
 # marker names of the history driver: the child built for such a shadow feature is replaced by a
 # value that is not a Feature, so that library code walking the tree raises half-way
 ALIENS = {'__ALIEN_STR__': 'alien', '__ALIEN_NONE__': None}
+SHARE = {'on': False}     # history driver XD: constraints with shared sub-expression objects, attribute values with shared containers
 
 
 def is_poisoned(model):
@@ -37,21 +38,32 @@ def node(tree, memo=None):
     return n
 
 
-SHARE = {'on': False}     # history driver XD: build constraints with shared sub-expression objects
 
 
 def constraint(name, tree):
     return Constraint(name, AST(node(tree, {} if SHARE['on'] else None)))
 
 
-def _feature(sf):
+def _feature(sf, relations=None):
     name, _rels, abstract, ftype, fcard, _attrs = sf
     kw = {}
     if ftype != 'Boolean':
         kw['feature_type'] = FTYPES[ftype]
     if tuple(fcard) != sh.DEFAULT_FCARD:
         kw['feature_cardinality'] = Cardinality(fcard[0], fcard[1])
-    return Feature(name, [], is_abstract=abstract, **kw)
+    return Feature(name, [] if relations is None else relations, is_abstract=abstract, **kw)
+
+
+def _alias_equal_containers(val, memo):
+    """Equal lists / dicts inside one attribute value become one shared object (a value like [[0] * 3] * 2)."""
+    if isinstance(val, list):
+        val = [_alias_equal_containers(x, memo) for x in val]
+    elif isinstance(val, dict):
+        val = {k: _alias_equal_containers(x, memo) for k, x in val.items()}
+    else:
+        return val
+    key = repr(val)
+    return memo.setdefault(key, val)
 
 
 def afm_attr(ranges, elements, default, null):
@@ -64,6 +76,8 @@ def _attrs(f, sf):
     from flamapy.metamodels.fm_metamodel.models import Domain, Range
     for (aname, aval) in sf[5]:
         val = sh.thaw(aval)
+        if SHARE['on']:
+            val = _alias_equal_containers(val, {})
         if isinstance(val, dict) and val.get('__afm__'):
             dom = Domain([Range(lo, hi) for lo, hi in val['ranges']] or None, list(val['elements']) or None)
             f.add_attribute(Attribute(aname, dom, val['default'], val['null']))
@@ -71,7 +85,10 @@ def _attrs(f, sf):
             f.add_attribute(Attribute(aname, None, val, None))
 
 
-def build(model, route='A'):
+ROUTE = {'default': 'A'}      # driver XB of vmc.hist switches the construction route of a whole check
+
+
+def build(model, route=None):
     """Build a real FeatureModel from a shadow through the public constructors.
     route A: the route every reader uses (children first, Relation(parent, [children]),
              parent.add_relation);
@@ -96,13 +113,51 @@ def build(model, route='A'):
             rel = Relation(f, [], 0, 0)
             f.add_relation(rel)
             for k in kids:
+                if k[0] in ALIENS:
+                    rel.children.append(ALIENS[k[0]])
+                    continue
                 child = rec_b(k)
                 rel.add_child(child)
                 child.parent = f
             rel.card_min = a
             rel.card_max = b
         return f
-    root = rec_a(model[0]) if route == 'A' else rec_b(model[0])
+    def rec_c(sf):
+        # attributes first, then an empty relation, then the children appended to its list directly
+        # (no add_child), each child completed only after it has been attached
+        own_relations = []
+        f = _feature(sf, own_relations)       # the list the caller passed stays the caller's: it is filled afterwards
+        _attrs(f, sf)
+        pending = []
+        for (a, b, kids) in sf[1]:
+            rel = Relation(f, [], a, b)
+            own_relations.append(rel)
+            pending.append((rel, kids))
+        for rel, kids in pending:
+            for k in kids:
+                child = rec_c(k) if k[0] not in ALIENS else ALIENS[k[0]]
+                if hasattr(child, 'parent'):
+                    child.parent = f
+                rel.children.append(child)
+        return f
+    def rec_d(sf):
+        # the relation is created empty, its children are put into its list, then it is attached:
+        # Feature.add_relation is what makes the children know their parent
+        f = _feature(sf)
+        for (a, b, kids) in sf[1]:
+            rel = Relation(f, [], a, b)
+            rel.children.extend(rec_d(k) if k[0] not in ALIENS else ALIENS[k[0]] for k in kids)
+            f.add_relation(rel)
+        _attrs(f, sf)
+        return f
+    route = route or ROUTE['default']
+    root = {'A': rec_a, 'B': rec_b, 'C': rec_c, 'D': rec_d}[route](model[0])
+    if route == 'C':
+        own_ctcs = []
+        fm = FeatureModel(root, own_ctcs)
+        for n, t in model[1]:
+            own_ctcs.append(constraint(n, t))       # constraints added to the caller's list after the model object exists
+        return fm
     ctcs = [constraint(n, t) for n, t in model[1]]
     return FeatureModel(root, ctcs)
 
